@@ -219,4 +219,14 @@ example :
     (HaltHandle.unlockHalt (HaltHandle.releases s [.atRecovery, .beforeSend]) .none).1.primary = none := by
   decide
 
+/-- further regenerated control skeletons (fifth round of seeded changes: code no earlier change had
+    touched): Client_AcquireHaltLock, Client_ReleaseHaltLock, Client_Commit, Store_EnforceHaltLockExpiration, DB_EnforceHaltLockExpiration -/
+theorem C13_source_skeletons_5 :
+    Gen.Skel.Client_AcquireHaltLock = Expected.Skel.Client_AcquireHaltLock ∧
+    Gen.Skel.Client_ReleaseHaltLock = Expected.Skel.Client_ReleaseHaltLock ∧
+    Gen.Skel.Client_Commit = Expected.Skel.Client_Commit ∧
+    Gen.Skel.Store_EnforceHaltLockExpiration = Expected.Skel.Store_EnforceHaltLockExpiration ∧
+    Gen.Skel.DB_EnforceHaltLockExpiration = Expected.Skel.DB_EnforceHaltLockExpiration :=
+  ⟨rfl, rfl, rfl, rfl, rfl⟩
+
 end LiteFSVerif.C13
